@@ -6,20 +6,23 @@ RULE = ("connected multigraphs x divisors x random sequences of 3..10 calls over
 EXPLANATION = ("after every call full snapshots (degrees, cached total, identity of .graph, graph.to_dict(), adjacency, valences, total) of every object handed in are compared with the snapshot before: graphs never change, "
                "pure calls change nothing, the in-place family may only replace the caller's divisor by a linearly equivalent one (decided by the verified lin_equiv_q) of the same degree on the same graph object")
 TWO_STAGE = True
-PURE = ["lineq", "lineq_zero", "lap_apply", "arith", "legal", "superstable", "greedy", "gon_game", "gon_strategy", "lap_queries", "config_queries"]
+PURE = ["lineq", "lineq_zero", "lap_apply", "arith", "legal", "superstable", "greedy", "gon_game", "gon_strategy", "lap_queries", "config_queries", "pcfg_legal", "pcfg_superstable", "pcfg_queries"]
+MOVES = ["pcfg_lend", "pcfg_borrow", "pcfg_fire"]      # ordinary moves through a PERSISTENT configuration object: expected change is known
+PCFG = ["pcfg_legal", "pcfg_legal", "pcfg_superstable", "pcfg_superstable", "pcfg_queries", "superstable"] + MOVES
 INPLACE = ["ewd", "ewd_opt", "ewd_vis", "is_winnable", "q_reduction", "is_q_reduced", "rank", "rank_opt", "dhar_run"]
 def gen(rng, tier):
     out = []
-    for _ in range(120 if tier == "quick" else 3000):
+    for _ in range(160 if tier == "quick" else 3000):
         G, fam = common.random_connected_graph(rng, 2, 5); n = G["n"]
         D = common.random_divisor(rng, G); small = common.genus(G) <= 3 and abs(sum(D)) <= 5 and max(abs(x) for x in D) <= 6
-        calls = []
-        for _ in range(rng.randint(3, 10)):
-            k = rng.choice(PURE + INPLACE)
+        calls = []; session = rng.random() < 0.35       # configuration session: one CFConfig object, tests interleaved with moves, chips >= 0
+        if session: D = [rng.randint(0, 3) for _ in range(n)]
+        for _ in range(rng.randint(6, 12) if session else rng.randint(3, 10)):
+            k = rng.choice(PCFG) if session else rng.choice(PURE + INPLACE + MOVES + MOVES)
             if k in ("rank", "rank_opt") and not small: k = "is_winnable"
             calls.append([k, rng.randrange(n), [rng.randint(-2, 2) for _ in range(n)]])
         if rng.random() < 0.3: D[rng.randrange(n)] -= sum(D)      # degree 0: reaches the EWD path inside linear_equivalence(D, 0)
-        out.append({"G": G, "D": D, "E": common.random_divisor(rng, G), "calls": calls, "s": rng.randrange(1 << 30)})
+        out.append({"G": G, "D": D, "E": common.random_divisor(rng, G), "calls": calls, "q0": rng.randrange(n), "s": rng.randrange(1 << 30)})
     return out
 def impl(c):
     import chipfiring.CFRank as R
@@ -36,7 +39,7 @@ def impl(c):
     g = common.build_impl_graph(G, rng); d = common.build_impl_divisor(G, c["D"], graph=g, rng=rng); e = common.build_impl_divisor(G, c["E"], graph=g, rng=rng)
     def gsnap(): return (g.to_dict(), [[g.graph[Vertex(x)].get(Vertex(y), 0) for y in names] for x in names], [g.get_valence(x) for x in names], g.total_valence, sorted(v.name for v in g.vertices))
     def dsnap(x): return (common.div_to_list(G, x), x.get_total_degree(), x.graph is g, sorted(v.name for v in x.degrees))
-    steps = []; g0 = gsnap()
+    steps = []; g0 = gsnap(); pcfg = CFConfig(d, names[c.get("q0", 0)]); q0 = c.get("q0", 0)
     for k, v, sc in c["calls"]:
         bd, be = dsnap(d), dsnap(e); err = None
         try:
@@ -53,6 +56,12 @@ def impl(c):
                 pl = CFDivisor(g, [(names[v], 1)]); CFGonality(g).test_n_chip_strategy(1, pl); steps.append({"k": "placement", "same": common.div_to_list(G, pl) == [1 if i == v else 0 for i in range(n)]})
             elif k == "lap_queries": L = CFLaplacian(g); L.get_matrix_entry(names[0], names[v]); L.get_reduced_matrix(Vertex(names[v]))
             elif k == "config_queries": cf = CFConfig(d, names[v]); cf.is_non_negative(); cf.get_degree_sum(); cf.get_config_degrees_as_dict(); cf.copy()
+            elif k == "pcfg_legal": pcfg.is_legal_set_firing({names[x] for x in range(n) if x != q0 and (x + v) % 2 == 0} or {names[(q0 + 1) % n]})
+            elif k == "pcfg_superstable": pcfg.is_superstable()
+            elif k == "pcfg_queries": pcfg.is_non_negative(); pcfg.get_degree_sum(); pcfg.get_q_underlying_degree()
+            elif k == "pcfg_lend": pcfg.lending_move(names[v])
+            elif k == "pcfg_borrow": pcfg.borrowing_move(names[v])
+            elif k == "pcfg_fire": pcfg.set_fire({names[x] for x in range(n) if x != q0 and (x + v) % 3 != 0})
             elif k == "ewd": EWD(g, d)
             elif k == "ewd_opt": EWD(g, d, optimized=True)
             elif k == "ewd_vis": EWD(g, d, visualize=True)
@@ -63,7 +72,7 @@ def impl(c):
             elif k == "rank_opt": R.rank(d, optimized=True)
             elif k == "dhar_run": DharAlgorithm(g, d, names[v]).run()
         except Exception as ex: err = type(ex).__name__ + ":" + str(ex)[:80]
-        steps.append({"k": k, "before": bd, "after": dsnap(d), "e_same": be == dsnap(e), "g_same": g0 == gsnap(), "err": err})
+        steps.append({"k": k, "v": v, "before": bd, "after": dsnap(d), "e_same": be == dsnap(e), "g_same": g0 == gsnap(), "err": err})
     return steps
 def model_lines(c, r):
     g = common.enc_graph(c["G"]); ls = []
@@ -83,7 +92,17 @@ def judge(c, r, mo):
         if not st["g_same"]: out.append({"what": "call #%d %s modified the graph" % (i, st["k"])}); break
         if not st["e_same"]: out.append({"what": "call #%d %s modified the second divisor" % (i, st["k"])}); break
         b, a = st["before"], st["after"]
-        if st["k"] in PURE:
+        if st["k"] in MOVES:
+            n = c["G"]["n"]; q0 = c.get("q0", 0); v = st["v"]
+            sc = [0] * n
+            if st["k"] == "pcfg_lend": sc[v] = 1
+            elif st["k"] == "pcfg_borrow": sc[v] = -1
+            else:
+                for x in range(n):
+                    if x != q0 and (x + v) % 3 != 0: sc[x] = 1
+            exp = common.lap_apply(c["G"], b[0], sc)
+            if a[0] != exp or a[1] != b[1]: out.append({"what": "move #%d %s through the configuration gave %s, expected %s" % (i, st["k"], a[0], exp)}); break
+        elif st["k"] in PURE:
             if a != b: out.append({"what": "pure call #%d %s changed its argument divisor: %s -> %s" % (i, st["k"], b[0], a[0])}); break
         else:
             if not isinstance(a[0], list) or a[1] != b[1] or sum(a[0]) != sum(b[0]) or not a[2] or a[3] != b[3]:
@@ -100,6 +119,7 @@ def oracle(c, r):
             if not st["same"]: return {"violates": True, "why": "placement modified"}
             continue
         if st["err"] or not st["g_same"] or not st["e_same"]: return {"violates": True, "why": "call #%d %s: %s" % (i, st["k"], st)}
+        if st["k"] in MOVES: continue
         if st["k"] in PURE and st["before"] != st["after"]: return {"violates": True, "why": "pure call #%d %s changed %s -> %s" % (i, st["k"], st["before"][0], st["after"][0])}
         if st["k"] in INPLACE and (st["after"][1] != st["before"][1] or not st["after"][2] or not O.lin_equiv(m, st["before"][0], st["after"][0])):
             return {"violates": True, "why": "in-place call #%d %s left the class / degree / graph" % (i, st["k"])}
